@@ -299,6 +299,30 @@ def r_writes(ctx, f):
             okl = bool(inner) and all(loop_every_iteration(f, x, c.bb) for x in inner)
             ctx.check(okl, rule, 'updated-one-per-element', c.loc(), 'one Updated key is put for every element of the old pending set',
                       'the loop over the old pending-updates set does not put one key per element')
+            # ... for every pending-updates entry: the loop is entered whenever the entry is of that kind -- no further condition
+            # (state carried from other entries, counters, the content of other keys) may skip the conversion of a pending set
+            extra = []
+            # the loop over the source entries, and the locals it carries from one entry to the next
+            outer = [x for x in nxt if x not in inner and 'heed' in recv_ty(x)]
+            body = set()
+            for x in outer:
+                body |= set(paths.natural_loop(f, x.bb))
+            carried = set()
+            for l, ds in f.defs().items():
+                blocks = {d[1] for d in ds}
+                if body and (blocks & body) and (blocks - body) and l > f.arg_count:
+                    carried.add(l)
+            for x in inner:
+                for s0, x0, e in paths.controlling_conds(f, x.bb):
+                    if not paths.edge_dominates(f, s0, x0, x.bb):
+                        continue
+                    # a condition on the entry itself (its kind, its id, the results of decoding it) is what selects the arm;
+                    # anything read from a local that survives from one entry to the next is foreign state
+                    used = {y[1] for y in walk(e[1]) if y[0] in ('var', 'phi') and isinstance(y[1], int)}
+                    if used & carried:
+                        extra.append(show(e[1])[:80])
+            ctx.check(not extra, rule, 'updated-unconditional', c.loc(), 'the pending set of every index is converted (conditions: entry kind and id only)',
+                      'the conversion of an old pending-updates entry also depends on %s: the updated marks of some indexes would be dropped' % extra[:2])
             assigns = []
             for bi, blk in enumerate(f.blocks):
                 for si, st in enumerate(blk['stmts']):
